@@ -334,7 +334,11 @@ def oracle_measurement_passes(r):
         except ValueError as e:
             raise Reject("defer_measurements: ValueError " + str(e)[:40])
         unchanged()
-        extra = sorted(set(out.all_qubits()) - set(order), key=repr)  # see report: _MeasurementQid of mixed qid types are unorderable
+        try:
+            sorted(out.all_qubits())  # what QubitOrder.DEFAULT / every simulator does with the result
+        except TypeError as e:
+            raise Violation(f"defer_measurements: the qubits of the output cannot be sorted (default qubit order fails): {e}")
+        extra = sorted(set(out.all_qubits()) - set(order), key=repr)
         if not set(pristine.all_qubits()) >= set(out.all_qubits()) - set(extra):
             raise Violation("defer_measurements: lost track of qubits")
         if len(order) + len(extra) > 7:
@@ -913,7 +917,23 @@ def _f26(sub, recipe):
     return False
 
 
+def _f20(sub, recipe):
+    """_MeasurementQid embeds the raw comparison key of the wrapped qid: ancillas of one multi-qubit measurement over different
+    qubit classes (LineQubit / GridQubit / NamedQubit) cannot be ordered, so the deferred circuit cannot be simulated."""
+    c = recipe.get("c") or {}
+    if recipe.get("row") != "defer_measurements" or c.get("qkind") != "mixed":
+        return False
+    names = c.get("names") or []
+    for o in _ops_of(recipe):
+        if o.get("k") == "m" and names:
+            kinds = {int(names[int(w) % len(names)]) % 3 for w in o.get("w", [])}
+            if len(kinds) >= 2:
+                return True
+    return False
+
+
 KNOWN_FEATURES = {
+    "F20_measurement_qid_unorderable": _f20,
     "F23_qubit_mapping_subcircuit_simple_manager": _f23,
     "F22_phxz_symbolized_symbols_in_subcircuit": _f22,
     "F21_phxz_symbolized_shared_symbol": _f21,
